@@ -5,9 +5,18 @@
 
 package encode
 
-//@ uses numbers colors protocol
+//@ uses numbers colors protocol ffv0 enctab
 
 //@ let S0 (proto.abs (old e.err) (old e.mode))
+// C01: where the instruction written by a styling call starts and ends. A zero-value Encoder first writes the 5 byte
+// default header, any other one appends to what it has. XB: the bytes, XP: position of the opcode, XE: end of the buffer.
+//@ let XP0 (ite (= (old e.mode) #x00) (int 5) (len (old e.buf)))
+//@ let XB (arr e.buf)
+//@ let XP (bvadd (off e.buf) (ite (= (old e.mode) #x00) (int 5) (len (old e.buf))))
+//@ let XE (bvadd (off e.buf) (len e.buf))
+//@ let XOK (and (= (styl.err (arr e.buf) (bvadd (off e.buf) (ite (= (old e.mode) #x00) (int 5) (len (old e.buf)))) (bvadd (off e.buf) (len e.buf))) 0) (= (styl.next (arr e.buf) (bvadd (off e.buf) (ite (= (old e.mode) #x00) (int 5) (len (old e.buf)))) (bvadd (off e.buf) (len e.buf))) (bvadd (off e.buf) (len e.buf))))
+//@ let XEV (styl.event (arr e.buf) (bvadd (off e.buf) (ite (= (old e.mode) #x00) (int 5) (len (old e.buf)))) (bvadd (off e.buf) (len e.buf)) nil.Iface)
+//@ let XKEEP (=> (not (= (old e.mode) #x00)) (appended e.buf (bvsub (len e.buf) (len (old e.buf))) 9))
 //@ let S1 (proto.abs e.err e.mode)
 //@ let defaultMeta (and (= (len e.buf) (int 5)) (= (at e.buf (int 0)) #x89) (= (at e.buf (int 1)) #x49) (= (at e.buf (int 2)) #x56) (= (at e.buf (int 3)) #x47) (= (at e.buf (int 4)) #x00))
 //@ let bufRegionOnly (mem.frame2.u8 (old mem.u8) mem.u8 (old nextR) (rgn e.buf) (rgn (old e.buf)))
@@ -72,6 +81,7 @@ package encode
 //@   let inrange (and (fp.leq ((_ to_fp 8 24) RNE (- 128.0)) coord) (fp.lt coord ((_ to_fp 8 24) RNE 128.0)))
 //@   let c64 (fp.mul RNE ((_ to_fp 11 53) RNE coord) ((_ to_fp 11 53) RNE 64.0))
 //@   let r64 (fp.mul RNE ((_ to_fp 11 53) RNE result) ((_ to_fp 11 53) RNE 64.0))
+//@   ensures [C01.quant.fn] (= result (enc.quant e.highResolutionCoordinates coord))
 //@   ensures [C08.quant.identity C01.quant] (=> (or e.highResolutionCoordinates (not inrange)) (= result coord))
 //@   ensures [C08.quant.grid C01.quant] (=> (and (not e.highResolutionCoordinates) inrange) (= r64 (fp.roundToIntegral RTZ r64)))
 //@   ensures [C08.quant.nearest C01.quant] (=> (and (not e.highResolutionCoordinates) inrange) (fp.leq (fp.abs (fp.sub RNE r64 c64)) ((_ to_fp 11 53) RNE 0.5)))
@@ -129,6 +139,8 @@ package encode
 //@   modifies e.buf e.mode e.lod1 e.err e.cSel mem.u8
 //@   ensures [C10.step.SetCSel] (proto.afterStyling S0 false S1)
 //@   ensures [C07.enc.setcsel] (= e.cSel (ite (proto.accepts S0 false) (bvand cSel #x3f) (old e.cSel)))
+//@   ensures [C01.enc.setcsel.instr] (=> (proto.accepts S0 false) (and XOK (= XEV (ivg.Destination.SetCSel nil.Iface (bvand cSel #x3f)))))
+//@   ensures [C01.enc.setcsel.prefix] (=> (proto.accepts S0 false) XKEEP)
 //@ contract (*Encoder).SetNSel
 //@   note counts C02
 //@   requires Inv
@@ -136,8 +148,11 @@ package encode
 //@   modifies e.buf e.mode e.lod1 e.err e.nSel mem.u8
 //@   ensures [C10.step.SetNSel] (proto.afterStyling S0 false S1)
 //@   ensures [C07.enc.setnsel] (= e.nSel (ite (proto.accepts S0 false) (bvand nSel #x3f) (old e.nSel)))
+//@   ensures [C01.enc.setnsel.instr] (=> (proto.accepts S0 false) (and XOK (= XEV (ivg.Destination.SetNSel nil.Iface (bvand nSel #x3f)))))
+//@   ensures [C01.enc.setnsel.prefix] (=> (proto.accepts S0 false) XKEEP)
 
 //@ contract (*Encoder).SetCReg
+//@   per-return
 //@   note counts C02
 //@   requires Inv
 //@   ensures [inv] Inv
@@ -145,6 +160,8 @@ package encode
 //@   modifies e.buf e.mode e.lod1 e.err e.cSel mem.u8
 //@   ensures [C10.step.SetCReg] (proto.afterStyling S0 (proto.badAdj adj incr) S1)
 //@   ensures [C07.enc.setcreg.sel] (=> (proto.accepts S0 (proto.badAdj adj incr)) (and (= e.cSel (ite incr (bvand (bvadd (old e.cSel) #x01) #x3f) (old e.cSel))) (= e.nSel (old e.nSel))))
+//@   ensures [C01.enc.setcreg.instr] (=> (proto.accepts S0 (proto.badAdj adj incr)) (and XOK (= XEV (ivg.Destination.SetCReg nil.Iface adj incr c))))
+//@   ensures [C01.enc.setcreg.prefix] (=> (proto.accepts S0 (proto.badAdj adj incr)) XKEEP)
 
 //@ contract (*Encoder).SetNReg
 //@   note counts C02
@@ -153,6 +170,23 @@ package encode
 //@   modifies e.buf e.mode e.lod1 e.err e.nSel e.scratch mem.u8
 //@   ensures [C10.step.SetNReg] (proto.afterStyling S0 (proto.badAdj adj incr) S1)
 //@   ensures [C07.enc.setnreg.sel] (=> (proto.accepts S0 (proto.badAdj adj incr)) (and (= e.nSel (ite incr (bvand (bvadd (old e.nSel) #x01) #x3f) (old e.nSel))) (= e.cSel (old e.cSel))))
+//@   at call encodeReal#0 assert [C01.enc.setnreg.candidates] (and (= arg1 f) (= (len *arg0) (int 0)))
+//@   at call encodeCoordinate#0 assert [C01.enc.setnreg.candidates] (and (= arg1 f) (= (len *arg0) (int 0)))
+//@   at call encodeZeroToOne#0 assert [C01.enc.setnreg.candidates] (and (= arg1 f) (= (len *arg0) (int 0)))
+//@   ensures [C01.enc.setnreg.cand.real] internal (=> (proto.accepts S0 (proto.badAdj adj incr)) (enc.realOK f (f32bits f) e.scratch (int 0)))
+//@   ensures [C01.enc.setnreg.cand.coord] internal (=> (proto.accepts S0 (proto.badAdj adj incr)) (enc.coordOK f (f32bits f) e.scratch (int 4)))
+//@   ensures [C01.enc.setnreg.cand.z2o] internal (=> (proto.accepts S0 (proto.badAdj adj incr)) (enc.z2oOK f (f32bits f) (f32bits (spec.z2oV e.scratch (int 8))) e.scratch (int 8)))
+//@   ensures [C01.enc.setnreg.choice.kind] internal (=> (proto.accepts S0 (proto.badAdj adj incr)) (or (and (= opcode #xa8) (= iBest (int 0))) (and (= opcode #xb0) (= iBest (int 4))) (and (= opcode #xb8) (= iBest (int 8)))))
+//@   ensures [C01.enc.setnreg.choice.len] internal (=> (proto.accepts S0 (proto.badAdj adj incr)) (= nBest (spec.numLen (select e.scratch iBest))))
+//@   ensures [C01.enc.setnreg.choice.shortest] internal (=> (proto.accepts S0 (proto.badAdj adj incr)) (and (bvule nBest (spec.numLen (select e.scratch (int 0)))) (bvule nBest (spec.numLen (select e.scratch (int 4)))) (bvule nBest (spec.numLen (select e.scratch (int 8))))))
+//@   ensures [C01.enc.setnreg.copy.len] internal (=> (proto.accepts S0 (proto.badAdj adj incr)) (= (len e.buf) (bvadd XP0 (bvadd (int 1) nBest))))
+//@   ensures [C01.enc.setnreg.copy.opcode] internal (=> (proto.accepts S0 (proto.badAdj adj incr)) (= (at e.buf XP0) (bvor (ite incr #x07 adj) opcode)))
+//@   ensures [C01.enc.setnreg.copy.b0] internal (=> (proto.accepts S0 (proto.badAdj adj incr)) (= (at e.buf (bvadd XP0 (int 1))) (select e.scratch iBest)))
+//@   ensures [C01.enc.setnreg.copy.b1] internal (=> (and (proto.accepts S0 (proto.badAdj adj incr)) (bvugt nBest (int 1))) (= (at e.buf (bvadd XP0 (int 2))) (select e.scratch (bvadd iBest (int 1)))))
+//@   ensures [C01.enc.setnreg.copy.b23] internal (=> (and (proto.accepts S0 (proto.badAdj adj incr)) (bvugt nBest (int 2))) (and (= (at e.buf (bvadd XP0 (int 3))) (select e.scratch (bvadd iBest (int 2)))) (= (at e.buf (bvadd XP0 (int 4))) (select e.scratch (bvadd iBest (int 3))))))
+//@   let XQ (bvadd XP (int 1))
+//@   let XD (styl.number XB XP)
+//@   ensures [C01.enc.setnreg.instr] cumulative thorough (=> (proto.accepts S0 (proto.badAdj adj incr)) (and XOK (= XEV (ivg.Destination.SetNReg nil.Iface adj incr XD))))
 
 //@ contract (*Encoder).SetLOD
 //@   note counts C02
@@ -161,6 +195,9 @@ package encode
 //@   modifies e.buf e.mode e.err e.lod0 e.lod1 mem.u8
 //@   ensures [C10.step.SetLOD] (proto.afterStyling S0 false S1)
 //@   ensures [C10.setlod.fields] (=> (proto.accepts S0 false) (and (= e.lod0 lod0) (= e.lod1 lod1)))
+//@   at call encodeReal#0 assert [C01.enc.setlod.opcode] (and (= (len e.buf) (bvadd XP0 (int 1))) (= (at e.buf XP0) #xc7) (= arg1 lod0))
+//@   at call encodeReal#1 assert [C01.enc.setlod.second] (= arg1 lod1)
+//@   ensures [C01.enc.setlod.length] (=> (proto.accepts S0 false) (and (bvuge (len e.buf) (bvadd XP0 (int 3))) (bvule (len e.buf) (bvadd XP0 (int 9))) (= (at e.buf XP0) #xc7)))
 
 //@ contract (*Encoder).StartPath
 //@   note counts C02
@@ -168,6 +205,12 @@ package encode
 //@   ensures [inv] Inv
 //@   modifies e.buf e.mode e.lod1 e.err e.highResolutionCoordinates mem.u8
 //@   ensures [C10.step.StartPath] (proto.afterStart S0 (bvugt adj #x06) S1)
+//@   let HR (old e.HighResolutionCoordinates)
+//@   at call quantize#0 assert [C01.enc.startpath.resolution] (and (= e.highResolutionCoordinates HR) (= arg1 x))
+//@   at call quantize#1 assert [C01.enc.startpath.resolution] (and (= e.highResolutionCoordinates HR) (= arg1 y))
+//@   at call encodeCoordinate#0 assert [C01.enc.startpath.opcode] (and (= (len e.buf) (bvadd XP0 (int 1))) (= (at e.buf XP0) (bvadd #xc0 adj)) (bvule adj #x06) (= arg1 (enc.quant HR x)))
+//@   at call encodeCoordinate#1 assert [C01.enc.startpath.second] (= arg1 (enc.quant HR y))
+//@   ensures [C01.enc.startpath.length] (=> (proto.accepts S0 (bvugt adj #x06)) (and (bvuge (len e.buf) (bvadd XP0 (int 3))) (bvule (len e.buf) (bvadd XP0 (int 9))) (= (at e.buf XP0) (bvadd #xc0 adj))))
 
 
 // ---- drawing operations
@@ -180,6 +223,7 @@ package encode
 //@   requires [verb] (or (= e.drawOp #x00) (enc.isVerb e.drawOp))
 //@   modifies e.buf e.drawOp e.drawArgs mem.u8
 //@   ensures [C10.flush.empty C17.flush.empty] (and (= e.drawOp #x00) (= (len e.drawArgs) (int 0)))
+//@   ensures [C01.tables.rows] (forall ((w!t (_ BitVec 64))) (=> (and (bvult w!t #x0000000000000100) (enc.isVerb ((_ extract 7 0) w!t))) (enctab.rowOK ((_ extract 7 0) w!t) drawOps[w!t].opcodeBase drawOps[w!t].maxRepCount drawOps[w!t].nArgs)))
 //@   let nA ((_ zero_extend 56) drawOps[e.drawOp].nArgs)
 //@   invariant 0 [flush.outer] (and (bvsle (int 0) i) (bvsle i (len e.drawArgs)) (bvsle (int 0) n) (bvsle n (len e.drawArgs)) (bvsle (bvadd i (bvmul n nA)) (len e.drawArgs)))
 //@   invariant 2 [flush.args] (and (bvsle (int 0) i) (bvsle i (len e.drawArgs)) (bvsle (int 0) j) (bvsle (int 0) n) (bvsle n (len e.drawArgs)) (bvsle (int 1) m) (bvsle m n) (bvsle j (bvmul m nA)) (bvsle (bvadd i (bvadd j (bvmul (bvsub n m) nA))) (len e.drawArgs)))
